@@ -110,6 +110,10 @@ def jalali_forms(y, m, d, g, full, rnd):
     forms.append(("time-hhmm", g.replace(hour=10, minute=45), "%d %s %d 10:45" % (d, mname, y)))
     forms.append(("time-words", g.replace(hour=10, minute=45), "%d %s %d ساعت 10 و 45 دقیقه" % (d, mname, y)))
     forms.append(("time-hms-persian-digits", g.replace(hour=19, minute=5, second=30), pers("%d %s %d 19:05:30" % (d, mname, y))))
+    # a fraction of a second is part of the clock time as well
+    forms.append(("time-hms-fraction", g.replace(hour=10, minute=58, second=4, microsecond=500000), "%04d/%02d/%02d 10:58:04.5" % (y, m, d)))
+    forms.append(("time-hms-fraction6", g.replace(hour=0, minute=0, second=1, microsecond=123456),
+                  "%d %s %d 00:00:01.123456" % (d, mname, y)))
     # the worded clock with one-digit components, with seconds, in Persian digits
     forms.append(("time-words-1digit", g.replace(hour=9, minute=5), "%d %s %d ساعت 9 و 5 دقیقه" % (d, mname, y)))
     forms.append(("time-words-mixed", g.replace(hour=9, minute=5), "%d %s %d ساعت 9 و 05 دقیقه" % (d, mname, y)))
@@ -203,7 +207,10 @@ def run_hijri(ctx, desc):
                 ylen += 1
                 forms = [("num/", g, "%04d/%02d/%02d" % (y, m, d)), ("num-", g, "%04d-%02d-%02d" % (y, m, d)),
                          ("time-am", g.replace(hour=9, minute=5), "%04d/%02d/%02d 09:05 صباحاً" % (y, m, d)),
-                         ("time-pm", g.replace(hour=21, minute=5), "%04d/%02d/%02d 09:05 مساءً" % (y, m, d))]
+                         ("time-pm", g.replace(hour=21, minute=5), "%04d/%02d/%02d 09:05 مساءً" % (y, m, d)),
+                         ("time-hms-fraction", g.replace(hour=10, minute=58, second=4, microsecond=500000),
+                          "%04d/%02d/%02d 10:58:04.5" % (y, m, d)),
+                         ("time-hms", g.replace(hour=23, minute=59, second=59), "%04d-%02d-%02d 23:59:59" % (y, m, d))]
                 if d > 12:
                     forms.append(("dd-mm-yyyy", g, "%02d-%02d-%04d" % (d, m, y)))
                     forms.append(("mm-dd-yyyy", g, "%02d-%02d-%04d" % (m, d, y)))
